@@ -49,6 +49,8 @@ Section WithFloats.
   Variable fin64 : F64 -> bool.
   Variable print32 : F32 -> bytes.
   Variable print64 : F64 -> bytes.
+  (* the variant of primitive::load in the tree (Model.lit_by_value) *)
+  Variable lv : bool.
 
   Notation prim := (prim F32 F64).
   Notation json := (json F32 F64).
@@ -132,11 +134,13 @@ Section WithFloats.
     | JObj m => forallb (fun kv => in_domain (snd kv)) m
     end.
 
-  (* unsigned values that still fit the signed type of the same width: the guard of the
-     mathematical round trip (decimal literals are read back as int32 / int64) *)
+  (* unsigned values that still fit the signed type they are read back as: the guard of the mathematical
+     round trip.  Pinned source: every unsuffixed literal is read as int32, every L literal as int64.
+     With fixes/C14-1 (lv) an unsuffixed literal too large for int32 becomes int64, so only uint64 values
+     above INT64_MAX remain. *)
   Definition prim_fits (p : prim) : bool :=
     match p with
-    | PInt KU32 v => (v <=? kind_max KI32)%Z
+    | PInt KU32 v => lv || (v <=? kind_max KI32)%Z
     | PInt KU64 v => (v <=? kind_max KI64)%Z
     | _ => true
     end.
@@ -150,11 +154,14 @@ Section WithFloats.
     end.
 
   (* ---------------------------------------------------------------- what re-parsing yields *)
-  (* the type and value a number has after it was printed and read back, and its source text *)
+  (* the type and value a number has after it was printed and read back *)
   Definition reparsed_prim (p : prim) : prim :=
     match p with
     | PInt KBool v => PInt KBool v
-    | PInt k v => if is_long k then PInt KI64 (cast KI64 v) else PInt KI32 (cast KI32 v)
+    | PInt k v =>
+        if is_long k then PInt KI64 (cast KI64 v)
+        else if lv && negb (Z.abs v <=? 2147483647)%Z then PInt KI64 (cast KI64 v)
+        else PInt KI32 (cast KI32 v)
     | p => p
     end.
 
